@@ -37,14 +37,16 @@ def wiring(ctx: Ctx, rule="R-C11-WIRING") -> None:
     calls = [c for c in ast.walk(w.node) if isinstance(c, ast.Call) and isinstance(c.func, ast.Attribute) and c.func.attr == "run_one_queue"]
     ctx.require(len(calls) == 1, f"{w.qualname}: run_one_queue call not found")
     c = calls[0]
-    gen = [g for g in ast.walk(w.node) if isinstance(g, (ast.GeneratorExp, ast.ListComp)) and any(x is c for x in ast.walk(g))]
-    ok = len(gen) == 1 and dotted(gen[0].generators[0].iter) == "self.topics_by_queue" and isinstance(gen[0].generators[0].target, ast.Name) and not gen[0].generators[0].ifs
-    v = gen[0].generators[0].target.id if ok else "?"
+    # the iteration (comprehension, generator or for-loop) over the served queues that contains the call
+    its = [(t, it) for t, it, body, node in C.iterations(w) if any(x is c for b in body for x in ast.walk(b))]
+    ok = len(its) == 1 and dotted(its[0][1]) == "self.topics_by_queue" and isinstance(its[0][0], ast.Name)
+    v = its[0][0].id if ok else "?"
     ctx.check(ok, rule, w, "one consumer per served queue", "for queue_name in self.topics_by_queue", "Worker.run does not start one run_one_queue per key of topics_by_queue", node=c, instance="per-queue consumers")
     a0, a1, a2 = C.arg(c, 0, "queue_name"), C.arg(c, 1, "topics"), C.arg(c, 2, "actors")
-    ok = dotted(a0) == v and isinstance(a1, ast.Subscript) and dotted(a1.value) == "self.topics_by_queue" and dotted(a1.slice) == v and dotted(a2) == "self.actors"
+    a1x = C.inline_locals(w, a1)
+    ok = dotted(a0) == v and isinstance(a1x, ast.Subscript) and dotted(a1x.value) == "self.topics_by_queue" and dotted(a1x.slice) == v and C.utext(w, a2) == "self.actors"
     ctx.check(ok, rule, w, "run_one_queue(q, topics_by_queue[q], actors)", "the queue's own topic set",
-              f"Worker.run starts run_one_queue({unparse(a0)}, {unparse(a1)}, {unparse(a2)}): a queue's consumer is not filtered by that queue's own topics", node=c, instance="queue/topics pairing")
+              f"Worker.run starts run_one_queue({unparse(a0)}, {C.utext(w, a1)}, {C.utext(w, a2)}): a queue's consumer is not filtered by that queue's own topics", node=c, instance="queue/topics pairing")
     r1 = ctx.func(f"{C.RUNNER}.run_one_queue")
     gc = [x for x in ast.walk(r1.node) if isinstance(x, ast.Call) and isinstance(x.func, ast.Attribute) and x.func.attr == "get_consumer"]
     ctx.require(len(gc) == 1, f"{r1.qualname}: get_consumer call not found")
@@ -67,16 +69,21 @@ def wiring(ctx: Ctx, rule="R-C11-WIRING") -> None:
             continue
         st = {dotted(t): unparse(n.value) for n in ast.walk(init.node) if isinstance(n, ast.Assign) for t in n.targets}
         okq = st.get("self.queue_name") == "queue_name"
-        okt = st.get("self.topics") in ("topics", "frozenset(topics) if topics is not None else frozenset()", "frozenset(topics)")
+        okt = st.get("self.topics") in ("topics", "frozenset(topics) if topics is not None else frozenset()", "frozenset(topics)", "frozenset() if topics is None else frozenset(topics)")
         okc = st.get("self.category") == "category"
         ctx.check(okq and okt and okc, rule, init, f"{init.short()} keeps queue, topics and category", "stored as given",
                   f"{init.short()} stores queue_name={st.get('self.queue_name')}, topics={st.get('self.topics')}, category={st.get('self.category')}", instance=f"{q.split('.')[-1]}: fields")
     rcf = ctx.func(f"{C.RUNNER}._run_consumer")
-    look = [s for s in ast.walk(rcf.node) if isinstance(s, ast.Subscript) and dotted(s.value) == "actors"]
-    ok = len(look) == 1 and dotted(look[0].slice) == "key.topic"
+    recv = [n for n in ast.walk(rcf.node) if isinstance(n, ast.AsyncFor) and isinstance(n.target, ast.Tuple) and len(n.target.elts) == 3]
+    ctx.require(len(recv) == 1 and all(isinstance(e, ast.Name) for e in recv[0].target.elts), f"{rcf.qualname}: `async for key, payload, params in consumer` not found")
+    kv, pv, prv = [e.id for e in recv[0].target.elts]
+    actors_param = [p.arg for p in rcf.params()][2]
+    look = [s for s in ast.walk(rcf.node) if isinstance(s, ast.Subscript) and dotted(s.value) == actors_param]
+    ok = len(look) == 1 and dotted(look[0].slice) == f"{kv}.topic"
     ctx.check(ok, rule, rcf, "actor = actors[key.topic]", "the actor registered under the message's topic", f"the consume loop looks the actor up with {[unparse(s) for s in look]}", instance="actor lookup")
     sp = [c2 for c2 in ast.walk(rcf.node) if isinstance(c2, ast.Call) and isinstance(c2.func, ast.Attribute) and c2.func.attr == "_process_with_event"]
-    ok = len(sp) == 1 and [unparse(a) for a in sp[0].args] == ["actor", "key", "payload", "params"]
+    ok = len(sp) == 1 and len(sp[0].args) == 4 and [dotted(a) for a in sp[0].args[1:]] == [kv, pv, prv] and look and C.inline_locals(rcf, sp[0].args[0]) is not None \
+        and unparse(C.inline_locals(rcf, sp[0].args[0])) == unparse(look[0])
     ctx.check(ok, rule, rcf, "_process_with_event(actor, key, payload, params)", "that actor processes that message", f"the consume loop spawns {unparse(sp[0]) if sp else '?'}", instance="spawn arguments")
     ctx.check(any(isinstance(t, ast.If) and "self.actors" in unparse(t.test) and "self.topics_by_queue" in unparse(t.test) for t in ast.walk(w.node)), rule, w,
               "worker without actors does not consume", "early exit", "Worker.run consumes although it has no actors", instance="no actors -> no consumers")
@@ -120,14 +127,22 @@ def filters(ctx: Ctx, rule="R-C11-FILTER") -> None:
               f"in-memory topic filter is `{unparse(tests[0].ast) if tests else '?'}`", instance="in-memory filter operand")
     # ---------- redis
     f = ctx.func(f"{C.REDIS_CONS}.__get_message_name")
-    nt = C.local_defs(f, "new_topics")
-    ok = len(nt) == 1 and isinstance(nt[0], ast.Call) and dotted(nt[0].func) == "tuple" and isinstance(nt[0].args[0], ast.GeneratorExp) \
-        and unparse(nt[0].args[0].elt) in ("x + ':'",) and dotted(nt[0].args[0].generators[0].iter) == "topics"
+    fm0 = [c for c in ast.walk(f.node) if isinstance(c, ast.Call) and (dotted(c.func) or "").endswith("__fetch_message_name")]
+    nt = [C.inline_locals(f, C.arg(fm0[0], 1, "startswith_topics"))] if len(fm0) == 1 and C.arg(fm0[0], 1, "startswith_topics") is not None else []
+    ok = False
+    if len(nt) == 1 and isinstance(nt[0], ast.Call) and dotted(nt[0].func) == "tuple" and nt[0].args and isinstance(nt[0].args[0], (ast.GeneratorExp, ast.ListComp)):
+        ge = nt[0].args[0]
+        v = ge.generators[0].target
+        e = ge.elt
+        ok = isinstance(v, ast.Name) and isinstance(e, ast.BinOp) and isinstance(e.op, ast.Add) and dotted(e.left) == v.id and C.is_const(e.right, ":") \
+            and dotted(ge.generators[0].iter) == [p.arg for p in f.params()][2] and not ge.generators[0].ifs
+    elif len(nt) == 1 and isinstance(nt[0], ast.JoinedStr):
+        ok = False
     ctx.check(ok, rule, f, "redis: topic prefixes end with the ':' separator", "tuple(x + ':' for x in topics)",
               f"redis __get_message_name builds the prefixes as {unparse(nt[0]) if nt else '?'}: without the ':' terminator a worker with actor 'send' also takes 'send_digest:<id>' "
               "messages it has no actor for", instance="redis prefix terminator")
     fm = [c for c in ast.walk(f.node) if isinstance(c, ast.Call) and (dotted(c.func) or "").endswith("__fetch_message_name")]
-    ok = len(fm) == 1 and dotted(C.arg(fm[0], 1, "startswith_topics")) == "new_topics" and dotted(C.arg(fm[0], 0, "full_queue_name")) == "full_queue_name"
+    ok = len(fm) == 1 and C.arg(fm[0], 1, "startswith_topics") is not None and dotted(C.arg(fm[0], 0, "full_queue_name")) == [p.arg for p in f.params()][1]
     ctx.check(ok, rule, f, "redis: fetch filtered by those prefixes", "__fetch_message_name(full_queue_name, new_topics, ...)", "redis __get_message_name does not pass the prefixes to the fetch", instance="redis prefixes used")
     callers = [ctx.func(f"{C.REDIS_CONS}.{n}") for n in ("__get_message_normal", "__get_message_delayed", "__get_message_dead")]
     for cf in callers:
